@@ -172,6 +172,11 @@ def rule_unw(ctx, rep, rule="R-UNW", da=False):
                 rep.bad(rule, key, path_report(F, b, bad, badmsg), F.loc(b), tag)
             else:
                 rep.ok(rule, key, cfg=tag, nontrivial=True)
+                if tag == "default" and len(rep.samples) < 3:
+                    cand = [p for p in prs if p.origin == "user" and any(x for x in p.vec)]
+                    if cand:
+                        p = max(cand, key=lambda p: len(p.events))
+                        rep.sample({"rule": rule, "function": key, "unwinding_origin": p.origin, "path_events": events_str(F, p, 12), "totals": vec_str(p.vec), "I": imbalance(p.vec)})
     for k, tags in half.items():
         rep.notes.append("half-built allocation may leak on unwind (documented, tolerated): %s" % k)
     for k, origins in tolerated.items():
